@@ -1,4 +1,4 @@
-// C11 part 1: instantiations for floating point types
+// C11 part 1: instantiations for float
 #include "harness/c11_cells.hh"
 namespace c11 {
 using namespace PPL;
@@ -16,5 +16,5 @@ template <class T> static void reg_mp() {
   Runner<CNW<T, PD> >::register_all(); Runner<CNW<T, PW> >::register_all();
   Runner<CNW<T, Checked_Number_Transparent_Policy<T> > >::register_all(); Runner<RAWW<T> >::register_all();
 }
-void register_float() { reg_flt<float>(); reg_flt<double>(); reg_flt<long double>(); }
+void register_float() { reg_flt<float>(); }
 }
